@@ -46,7 +46,7 @@ SpecialForms == {"def", "let", "quote", "quasiquote", "quasiquoteexpand", "defma
 
 \* builtins that need the evaluator or the state
 StateNames == {"trace!", "throw", "atom", "deref", "reset!", "swap!", "apply", "map", "eval",
-               "update", "update-in", "raise!", "boom!", "boom-str!", "rawraise!", "rawboom!", "rawboom-str!", "go-error", "error-string", "unwrap-error", "panic", "cancel!", "depth!", "future-call",
+               "update", "update-in", "raise!", "boom!", "boom-str!", "rawraise!", "rawboom!", "rawboom-str!", "go-error", "error-string", "unwrap-error", "panic", "cancel!", "long-loop!", "depth!", "future-call",
                "sleep", "future-done?", "future-cancelled?", "future-cancel"}
 BuiltinNames == PureNames \cup StateNames
 
